@@ -163,3 +163,130 @@ Proof.
   split; [exact C18L.ZNum_irrefl|]. split; [exact C18L.ZNum_trans|].
   split; [exact C18L.ZNum_le_lt|]. split; [exact C18L.ZNum_negtrans|]. vm_compute. reflexivity.
 Qed.
+
+From Flocq Require IEEE754.BinarySingleNaN IEEE754.Binary IEEE754.Bits.
+From OSV Require FloatInst.
+From OSV.Lemmas Require FloatOrderInstL.
+(** ** Sorting rating objects in IEEE 754 binary64, for FINITE ordinals (no law hypothesis)
+
+    The law premises of [C18_sorted] ... [C18_strongly_sorted_le] are false for binary64 as a
+    whole ([fleb x y = negb (fltb y x)] fails when x or y is NaN), so those theorems cannot be
+    instantiated at [FloatInst.B64Num] as they stand.  For a list of ratings whose ordinals
+    [mu - 3 * sigma], computed in binary64 (round to nearest even), are all finite doubles — no
+    overflow, no NaN — the conclusions hold with no law assumed: the list sorted with the class's
+    [<] (resp. [<=]) is a permutation of the input and every element's ordinal is [<=] that of
+    EVERY later element ([StronglySorted]; [Sorted] = each element and the next).  [fleb] on
+    finite doubles is the order of their real values ([FloatOrderL.b64_leb_spec]).  Nothing is
+    assumed about the libm parameters of the instance (the ordinal uses only [-] and [*]). *)
+
+Theorem C18_sorted_binary64 :
+  forall (f_exp f_erfc f_pow2 f_icdf : Bits.binary64 -> Bits.binary64)
+         (k : kind) (l : list (rating Bits.binary64)),
+  Forall (fun a : rating Bits.binary64 =>
+            Binary.is_finite 53%Z 1024%Z
+              (@ordinal Bits.binary64 (FloatInst.B64Num f_exp f_erfc f_pow2 f_icdf) a
+                 (@fofZ Bits.binary64 (FloatInst.B64Num f_exp f_erfc f_pow2 f_icdf) 3)) = true) l ->
+  let sorted := isort (fun a b => negb (match @rating_compare Bits.binary64 (FloatInst.B64Num f_exp f_erfc f_pow2 f_icdf)
+                                                OpLt k b (PRating k a) with
+                                        | Ok t => t | Raise _ => false end)) l in
+  Sorted (fun a b => @fleb Bits.binary64 (FloatInst.B64Num f_exp f_erfc f_pow2 f_icdf)
+                       (@ordinal Bits.binary64 (FloatInst.B64Num f_exp f_erfc f_pow2 f_icdf) a
+                          (@fofZ Bits.binary64 (FloatInst.B64Num f_exp f_erfc f_pow2 f_icdf) 3))
+                       (@ordinal Bits.binary64 (FloatInst.B64Num f_exp f_erfc f_pow2 f_icdf) b
+                          (@fofZ Bits.binary64 (FloatInst.B64Num f_exp f_erfc f_pow2 f_icdf) 3)) = true) sorted /\
+  Permutation l sorted.
+Proof. exact FloatOrderInstL.sorted_lt_b64. Qed.
+Print Assumptions C18_sorted_binary64.
+
+Theorem C18_sorted_le_binary64 :
+  forall (f_exp f_erfc f_pow2 f_icdf : Bits.binary64 -> Bits.binary64)
+         (k : kind) (l : list (rating Bits.binary64)),
+  Forall (fun a : rating Bits.binary64 =>
+            Binary.is_finite 53%Z 1024%Z
+              (@ordinal Bits.binary64 (FloatInst.B64Num f_exp f_erfc f_pow2 f_icdf) a
+                 (@fofZ Bits.binary64 (FloatInst.B64Num f_exp f_erfc f_pow2 f_icdf) 3)) = true) l ->
+  let sorted := isort (fun a b => match @rating_compare Bits.binary64 (FloatInst.B64Num f_exp f_erfc f_pow2 f_icdf)
+                                          OpLe k a (PRating k b) with
+                                  | Ok t => t | Raise _ => false end) l in
+  Sorted (fun a b => @fleb Bits.binary64 (FloatInst.B64Num f_exp f_erfc f_pow2 f_icdf)
+                       (@ordinal Bits.binary64 (FloatInst.B64Num f_exp f_erfc f_pow2 f_icdf) a
+                          (@fofZ Bits.binary64 (FloatInst.B64Num f_exp f_erfc f_pow2 f_icdf) 3))
+                       (@ordinal Bits.binary64 (FloatInst.B64Num f_exp f_erfc f_pow2 f_icdf) b
+                          (@fofZ Bits.binary64 (FloatInst.B64Num f_exp f_erfc f_pow2 f_icdf) 3)) = true) sorted /\
+  Permutation l sorted.
+Proof. exact FloatOrderInstL.sorted_le_b64. Qed.
+Print Assumptions C18_sorted_le_binary64.
+
+Theorem C18_strongly_sorted_binary64 :
+  forall (f_exp f_erfc f_pow2 f_icdf : Bits.binary64 -> Bits.binary64)
+         (k : kind) (l : list (rating Bits.binary64)),
+  Forall (fun a : rating Bits.binary64 =>
+            Binary.is_finite 53%Z 1024%Z
+              (@ordinal Bits.binary64 (FloatInst.B64Num f_exp f_erfc f_pow2 f_icdf) a
+                 (@fofZ Bits.binary64 (FloatInst.B64Num f_exp f_erfc f_pow2 f_icdf) 3)) = true) l ->
+  let sorted := isort (fun a b => negb (match @rating_compare Bits.binary64 (FloatInst.B64Num f_exp f_erfc f_pow2 f_icdf)
+                                                OpLt k b (PRating k a) with
+                                        | Ok t => t | Raise _ => false end)) l in
+  StronglySorted (fun a b => @fleb Bits.binary64 (FloatInst.B64Num f_exp f_erfc f_pow2 f_icdf)
+                       (@ordinal Bits.binary64 (FloatInst.B64Num f_exp f_erfc f_pow2 f_icdf) a
+                          (@fofZ Bits.binary64 (FloatInst.B64Num f_exp f_erfc f_pow2 f_icdf) 3))
+                       (@ordinal Bits.binary64 (FloatInst.B64Num f_exp f_erfc f_pow2 f_icdf) b
+                          (@fofZ Bits.binary64 (FloatInst.B64Num f_exp f_erfc f_pow2 f_icdf) 3)) = true) sorted /\
+  Permutation l sorted.
+Proof. exact FloatOrderInstL.strongly_sorted_lt_b64. Qed.
+Print Assumptions C18_strongly_sorted_binary64.
+
+Theorem C18_strongly_sorted_le_binary64 :
+  forall (f_exp f_erfc f_pow2 f_icdf : Bits.binary64 -> Bits.binary64)
+         (k : kind) (l : list (rating Bits.binary64)),
+  Forall (fun a : rating Bits.binary64 =>
+            Binary.is_finite 53%Z 1024%Z
+              (@ordinal Bits.binary64 (FloatInst.B64Num f_exp f_erfc f_pow2 f_icdf) a
+                 (@fofZ Bits.binary64 (FloatInst.B64Num f_exp f_erfc f_pow2 f_icdf) 3)) = true) l ->
+  let sorted := isort (fun a b => match @rating_compare Bits.binary64 (FloatInst.B64Num f_exp f_erfc f_pow2 f_icdf)
+                                          OpLe k a (PRating k b) with
+                                  | Ok t => t | Raise _ => false end) l in
+  StronglySorted (fun a b => @fleb Bits.binary64 (FloatInst.B64Num f_exp f_erfc f_pow2 f_icdf)
+                       (@ordinal Bits.binary64 (FloatInst.B64Num f_exp f_erfc f_pow2 f_icdf) a
+                          (@fofZ Bits.binary64 (FloatInst.B64Num f_exp f_erfc f_pow2 f_icdf) 3))
+                       (@ordinal Bits.binary64 (FloatInst.B64Num f_exp f_erfc f_pow2 f_icdf) b
+                          (@fofZ Bits.binary64 (FloatInst.B64Num f_exp f_erfc f_pow2 f_icdf) 3)) = true) sorted /\
+  Permutation l sorted.
+Proof. exact FloatOrderInstL.strongly_sorted_le_b64. Qed.
+Print Assumptions C18_strongly_sorted_le_binary64.
+
+(** non-vacuity (libm parameters: identity stand-ins, unused): ratings (mu, sigma) = (10.0, 1.0),
+    (4.0, 0.0), (7.0, 0.0) have the finite ordinals 7.0, 4.0, 7.0; sorted with [<] the ids come out
+    2, 1, 3 (stable on the tie), as over the integers ([C18_sorted_nonvacuous]) *)
+Example C18_sorted_binary64_ex :
+  let N := FloatInst.B64Num (fun x => x) (fun x => x) (fun x => x) (fun x => x) in
+  let l := [mkRating (FloatInst.b64_of_Z 10) (FloatInst.b64_of_Z 1) 1%Z NmNone;
+            mkRating (FloatInst.b64_of_Z 4) (FloatInst.b64_of_Z 0) 2%Z NmNone;
+            mkRating (FloatInst.b64_of_Z 7) (FloatInst.b64_of_Z 0) 3%Z NmNone] in
+  Forall (fun a : rating Bits.binary64 =>
+            Binary.is_finite 53%Z 1024%Z (@ordinal Bits.binary64 N a (@fofZ Bits.binary64 N 3)) = true) l
+  /\ map r_id (isort (fun a b => negb (match @rating_compare Bits.binary64 N OpLt PL b (PRating PL a) with
+                                       | Ok t => t | Raise _ => false end)) l) = [2; 1; 3]%Z
+  /\ map (fun a => Bits.bits_of_b64 (@ordinal Bits.binary64 N a (@fofZ Bits.binary64 N 3))) l
+     = map Bits.bits_of_b64 [FloatInst.b64_of_Z 7; FloatInst.b64_of_Z 4; FloatInst.b64_of_Z 7].
+Proof.
+  intros N l. split; [|split].
+  - repeat (constructor; [vm_compute; reflexivity|]). constructor.
+  - vm_compute. reflexivity.
+  - vm_compute. reflexivity.
+Qed.
+
+(** the finiteness premise cannot be dropped: with ordinals 5.0, NaN, 3.0 (the middle rating has
+    mu = NaN 0x7FF8000000000000) the sort leaves the list as it is, and 5.0 <= 3.0 is false *)
+Example C18_sorted_fails_nan_binary64 :
+  let N := FloatInst.B64Num (fun x => x) (fun x => x) (fun x => x) (fun x => x) in
+  let l := [mkRating (FloatInst.b64_of_Z 5) (FloatInst.b64_of_Z 0) 1%Z NmNone;
+            mkRating (Bits.b64_of_bits 9221120237041090560%Z) (FloatInst.b64_of_Z 0) 2%Z NmNone;
+            mkRating (FloatInst.b64_of_Z 3) (FloatInst.b64_of_Z 0) 3%Z NmNone] in
+  map r_id (isort (fun a b => negb (match @rating_compare Bits.binary64 N OpLt PL b (PRating PL a) with
+                                    | Ok t => t | Raise _ => false end)) l) = [1; 2; 3]%Z
+  /\ @fleb Bits.binary64 N (@ordinal Bits.binary64 N (nth 0 l (nth 0 l (mkRating (FloatInst.b64_of_Z 0) (FloatInst.b64_of_Z 0) 0%Z NmNone)))
+                              (@fofZ Bits.binary64 N 3))
+                           (@ordinal Bits.binary64 N (nth 2 l (nth 0 l (mkRating (FloatInst.b64_of_Z 0) (FloatInst.b64_of_Z 0) 0%Z NmNone)))
+                              (@fofZ Bits.binary64 N 3)) = false.
+Proof. intros N l. split; vm_compute; reflexivity. Qed.
